@@ -16,10 +16,34 @@ def real_limit_streams(tier):
     return out
 
 
+def enum_streams(tier):
+    """bounded-exhaustive correspondence: EVERY sequence of `depth` state-changing requests over a 12-letter alphabet
+    (3 keys) on tables that start with one bucket, so that displacement, doubling, deferred migration (stripe limit 2),
+    shrinking and clear all occur; each sequence ends with lookups of all keys, the full-state digest, the structural
+    scan and the statistics.  Supports the validation of the model against the code (it is not what proves C02)."""
+    import itertools
+    depth = 4 if tier == "quick" else 5
+    picks = [(1, 2, 0, 0), (2, 2, 1, 2)] if tier == "quick" else [(1, 2, 0, 0), (1, 2, 0, 1), (2, 2, 1, 2), (1, 4, 2, 0)]
+    out = []
+    for S, M, kind, hm in picks:
+        cfg = k2.Cfg(S, M, kind, hm)
+        alphabet = ["insert 0 %d %%d" % k for k in (0, 1, 2)] + ["erase 0 %d" % k for k in (0, 1, 2)] + \
+                   ["ioa 0 1 %d", "update 0 0 %d", "rehash 0 0", "rehash 0 2", "reserve 0 9", "clear 0"]
+        tail = ["m find 0 0", "m find 0 1", "m find 0 2", "m digest 0", "m inv 0", "m stats 0"]
+        lines = [cfg.line()]
+        for seq in itertools.product(alphabet, repeat=depth):
+            lines.append("m new 0 0")
+            for i, a in enumerate(seq):
+                lines.append("m " + (a % (100 + i) if "%d" in a else a))
+            lines += tail
+        out.append((cfg, lines))
+    return out
+
+
 def run(tier):
     import k1b
     return k2check.run("C02", tier, profile="mixed", extra_props=["C02Par"], phases=[k1b.split_phase],
-                       extra_streams=real_limit_streams(tier))
+                       extra_streams=real_limit_streams(tier) + enum_streams(tier))
 
 
 def replay(path):
